@@ -51,7 +51,7 @@ pub fn run_c14(ctx: &Ctx) -> i32 {
     rep.assume("child circuit = fake 21-PI / (21N+8)-PI circuit with free public inputs (the constructors accept any child circuit of the right shape); statements are restricted to ones the real child circuit can attest");
     let fake = FakeLeaf::build(LEAF_PI);
     let template = fake.prove(&zero_slot().to_pis()).unwrap();
-    let sizes: Vec<usize> = ctx.tier.pick(vec![2usize], vec![1usize, 2, 3, 4]);
+    let sizes: Vec<usize> = ctx.tier.pick(vec![2usize, 3], vec![1usize, 2, 3, 4]);
     for &n in &sizes {
         let full = match PrivFull::build(&fake.data, n) {
             Ok(x) => x,
@@ -62,7 +62,7 @@ pub fn run_c14(ctx: &Ctx) -> i32 {
         };
         let vd = full.data.verifier_data();
         let w = PrivW::build(n).unwrap();
-        let cases = ctx.tier.pick(45usize, 900) / sizes.len();
+        let cases = ctx.tier.pick(54usize, 900) / sizes.len();
         (0..cases).into_par_iter().for_each(|ci| {
             if ctx.over_budget() {
                 return;
@@ -81,7 +81,42 @@ pub fn run_c14(ctx: &Ctx) -> i32 {
                     s.number = f(u(s.number) & M32);
                 }
             }
+            // explicit replay pattern for n >= 3: every slot real and compatible, the FIRST and the LAST proof share a
+            // nullifier with differently-numbered proofs between them (non-adjacent replay), or an adjacent pair in the middle
+            let replay_pattern = n >= 3 && brk == PolicyBreak::None && ci % 9 == 8;
+            if replay_pattern {
+                let base = slots.iter().find(|s| s.is_real()).cloned().unwrap_or_else(|| Slot { block_hash: rand_d4(&mut rng), ..slots[0].clone() });
+                for s in slots.iter_mut() {
+                    *s = Slot { nullifier: rand_d4(&mut rng), out1: f(rng.gen_range(0..1000)), out2: f(rng.gen_range(0..1000)), ..base.clone() };
+                }
+                let last = slots.len() - 1;
+                if (ci / 9) % 3 == 2 {
+                    slots[2].nullifier = slots[1].nullifier;
+                } else {
+                    slots[last].nullifier = slots[0].nullifier;
+                }
+                rep.count("private:replay_pattern");
+            }
+            // explicit cross-column overflow pattern: one account is paid from output position 1 of one proof and from
+            // position 2 of another; each column stays below 2^32, the grouped total is 2^32-1 / 2^32 / 2^32+1
+            let overflow_pattern = n >= 2 && brk == PolicyBreak::None && ci % 9 == 2;
+            if overflow_pattern {
+                let base = slots.iter().find(|s| s.is_real()).cloned().unwrap_or_else(|| Slot { block_hash: rand_d4(&mut rng), ..slots[0].clone() });
+                let target = rand_d4(&mut rng);
+                for s in slots.iter_mut() {
+                    *s = Slot { nullifier: rand_d4(&mut rng), out1: F::ZERO, out2: F::ZERO, exit1: rand_d4(&mut rng), exit2: rand_d4(&mut rng), ..base.clone() };
+                }
+                let total: u64 = (1u64 << 32) - 1 + ((ci / 9) % 3) as u64;
+                let a = total / 2;
+                let last = slots.len() - 1;
+                slots[0].exit1 = target;
+                slots[0].out1 = f(a);
+                slots[last].exit2 = target;
+                slots[last].out2 = f(total - a);
+                rep.count("private:cross_column_sum_pattern");
+            }
             let mut k = match brk {
+                _ if replay_pattern || overflow_pattern => n,
                 PolicyBreak::Empty => 0,
                 PolicyBreak::TooMany => n + 1,
                 _ => rng.gen_range(1..=n),
